@@ -9,14 +9,16 @@
 
   What is concrete here (transliterated from the C++):
     * `parse_command_line` (main.cpp) and the message texts it produces;
-    * `reporter.error(e.what())`: the diagnostic text is handed to `fmt::format`
-      as the *format string* (ireporter.hpp) — `fmtSafe`;
-    * `fs_provider::read_file` on a missing file / a directory;
+      `reporter.error("{}", e.what())` prints any text;
+    * `fs_provider::read_file`: a missing file, a directory (`is_directory` →
+      diagnostic);
     * `schema_parser`: the `messageSchema` lookup, `parse_schema_content`,
-      `parse_include` (a fresh parser per `href`, resolved over the finite map
-      `FS`, with fuel), `parse_type_encoding` attribute by attribute up to the
-      unguarded `t.constant_value->size()`, `location_manager::find` on every
-      node offset, and the recursion over the element nesting depth;
+      `parse_include` with its `include_stack` (an `href` that is being parsed
+      already → "cyclic include" diagnostic; otherwise a fresh parser for
+      `href`, resolved over the finite map `FS`), `parse_type_encoding`
+      attribute by attribute, and the recursion over the element nesting depth;
+      `location_manager::find` is total (offsets past the content are clamped)
+      and therefore does not appear;
     * the order validation → emission and the writes of the emission.
   What is abstract (`Env`, universally quantified in every theorem): the
   verdicts of the remaining parser checks, of the validators and of the names
@@ -25,6 +27,10 @@
   guard table calls *guarded* — whether the access would fail (`siteFails`);
   `Sound env` states the table's claim that such a failure is always preceded
   by a diagnostic of the named earlier stage.
+
+  The C++ recursion `parse_include → schema_parser → parse_schema_content` has
+  no explicit bound; the model runs it with fuel and `run_terminates` shows
+  that `fs.length + 1` always suffices because of the include stack.
 
   The DOM is given flattened: the descendants of a `<types>` / `<message>`
   element in document (pre-)order with their nesting depth; the parser visits
@@ -37,12 +43,7 @@ abbrev SiteKey := String × String × String × String
 
 /-- input conditions under which an unguarded site fails -/
 inductive Trigger
-  | diagHasBrace        -- a diagnostic text with an unescaped `{`/`}` reaches `reporter.error(e.what())`
-  | inputIsDirectory    -- `read_file` on a directory: `tellg() = -1`, `data.resize(-1)`
-  | constCharNoValue    -- constant `char` type without content and without `length`
-  | includeCycle        -- `parse_include` recursion on a cyclic include graph
   | nestingTooDeep      -- recursion over the element nesting depth of the input
-  | offsetBeyondContent -- `location_manager::find` with an offset behind the file content
   deriving DecidableEq, Repr
 
 inductive Guard
@@ -70,14 +71,12 @@ def guardTable : List (SiteKey × Guard) := [
     .static "std::get by type/index on a std::tuple: resolved at compile time"),
   (("context_manager.hpp", "get", "assert", "assert((search != std::end(map)) && \"Context doesn't exist\"); #2"),
     .order "a context is created exactly once per entity by the validators and fetched only for validated entities"),
-  (("fs_provider.hpp", "read_file", "resize", "data.resize(file_size);"),
-    .unguarded .inputIsDirectory),
-  (("location_manager.hpp", "find", "assert", "assert(search != std::end(ranges) && \"Offset is out of range\");"),
-    .unguarded .offsetBeyondContent),
+  (("fs_provider.hpp", "read_file", "resize", "data.resize(static_cast<std::size_t>(file_size));"),
+    .local_ "is_directory(path) is rejected before the open, file_size < 0 just before"),
+  (("location_manager.hpp", "find", "frontback", "const auto& last = ranges.back();"),
+    .local_ "ranges.empty() tested just before"),
   (("main.cpp", "parse_command_line", "index", "else if(arg[0] == '-')"),
     .static "argv strings are NUL terminated: index 0 exists"),
-  (("main.cpp", "main", "rtfmt", "reporter.error(e.what());"),
-    .unguarded .diagHasBrace),
   (("messages_compiler.hpp", "get_const_value", "assert", "assert(t.value_ref || t.constant_value);"),
     .rule "validate" "validate_constant_value: exactly one of valueRef and value"),
   (("messages_compiler.hpp", "get_const_value", "optderef", "return value_ref_to_enum_value(*t.value_ref);"),
@@ -213,11 +212,11 @@ def guardTable : List (SiteKey × Guard) := [
   (("schema_compiler.hpp", "make_schema_header_forward_declaration", "optderef", "fmt::arg(\"impl_name\", *mangled_name),"),
     .local_ "tested by if(x) on the same optional in this function"),
   (("schema_parser.hpp", "parse_schema_content", "recursion", "calls parse_include, parse_schema_content"),
-    .unguarded .includeCycle),
+    .local_ "parse_include rejects an href that is on include_stack: parsers nest at most once per file"),
   (("schema_parser.hpp", "parse_include", "recursion", "calls parse_schema_content"),
-    .unguarded .includeCycle),
+    .local_ "an href that is on include_stack is rejected (cyclic include): parsers nest at most once per file"),
   (("schema_parser.hpp", "parse_type_encoding", "optderef", "t.length = t.constant_value->size();"),
-    .unguarded .constCharNoValue),
+    .local_ "&& t.constant_value in the same condition"),
   (("schema_parser.hpp", "parse_composite_elements", "recursion", "calls parse_composite_encoding"),
     .unguarded .nestingTooDeep),
   (("schema_parser.hpp", "parse_composite_encoding", "recursion", "calls parse_composite_elements"),
@@ -383,35 +382,16 @@ def guardTable : List (SiteKey × Guard) := [
   (("utils.hpp", "get_schema_encoding_as", "get", "return std::get<T>(get_schema_encoding(schema, name));"),
     .rule "validate" "callers name an encoding whose kind the validator checked (header composite, header element type, valueRef enum)")
 ]
-
 def guardOf (s : SiteKey) : Option Guard := guardTable.lookup s
 
-/-- the model location of each trigger: the extracted site that fails -/
+/-- the model location of each trigger: the extracted site that fails (the
+    first of the recursion family over the nesting depth) -/
 def siteOf : Trigger → SiteKey
-  | .diagHasBrace => ("main.cpp", "main", "rtfmt", "reporter.error(e.what());")
-  | .inputIsDirectory => ("fs_provider.hpp", "read_file", "resize", "data.resize(file_size);")
-  | .constCharNoValue => ("schema_parser.hpp", "parse_type_encoding", "optderef", "t.length = t.constant_value->size();")
-  | .includeCycle => ("schema_parser.hpp", "parse_include", "recursion", "calls parse_schema_content")
   | .nestingTooDeep => ("schema_parser.hpp", "parse_composite_elements", "recursion", "calls parse_composite_encoding")
-  | .offsetBeyondContent => ("location_manager.hpp", "find", "assert",
-      "assert(search != std::end(ranges) && \"Offset is out of range\");")
 
-/-! ## {fmt}: a run-time string used as a format string -/
-
-/-- `fmt::format(msg)` without arguments succeeds iff every brace is doubled
-    (`{{`, `}}`); a single `{` is a replacement field without argument
-    ("argument not found"), a single `}` is "unmatched '}'". -/
-def fmtSafeChars : List Char → Bool
-  | [] => true
-  | '{' :: '{' :: r => fmtSafeChars r
-  | '}' :: '}' :: r => fmtSafeChars r
-  | '{' :: _ => false
-  | '}' :: _ => false
-  | _ :: r => fmtSafeChars r
-
-def fmtSafe (s : String) : Bool := fmtSafeChars s.toList
-
-def braceFree (s : String) : Prop := ∀ c ∈ s.toList, c ≠ '{' ∧ c ≠ '}'
+/-- the recursion `parse_include → schema_parser → parse_schema_content`; the
+    model's fuel can only run out here (and never does with `fs.length < fuel`) -/
+def includeSite : SiteKey := ("schema_parser.hpp", "parse_include", "recursion", "calls parse_schema_content")
 
 /-! ## command line (main.cpp `parse_command_line`) -/
 
@@ -472,7 +452,6 @@ structure TNode where
   kind : Kind := .other
   attrs : List (String × String) := []
   text : String := ""         -- PCDATA content ("" = no text child)
-  offOk : Bool := true        -- `offset_debug()` lies inside the original file content
   depth : Nat := 0            -- nesting depth below the enclosing `<types>` / `<message>`
   deriving Repr, DecidableEq
 
@@ -487,7 +466,7 @@ inductive Item
   | other (n : TNode)                           -- anything else (warning "unhandled XML node")
 
 inductive Xml
-  | malformed (what : String) (offOk : Bool)  -- pugixml error text; is `result.offset` inside the content?
+  | malformed (what : String)                   -- pugixml error text
   | doc (top : List Item)
 
 inductive Entry
@@ -503,6 +482,7 @@ def FS.get (fs : FS) (p : String) : Entry := (fs.lookup p).getD .missing
 structure Parsed where
   schemaAttrs : List (String × String) := []
   nodes : List TNode := []
+  deriving Repr, DecidableEq
 
 /-- everything the model does not transliterate -/
 structure Env where
@@ -532,9 +512,6 @@ abbrev PM := Except PStop
 
 def loc (path : String) : String := path ++ ":L:C"
 
-/-- `locations.find(offset)` -/
-def findLoc (ok : Bool) : PM Unit := if ok then pure () else throw (.crash .offsetBeyondContent)
-
 /-- `std::from_chars` into an unsigned type of `bits` bits, full consumption -/
 def isNum (bits : Nat) (s : String) : Bool :=
   s.toList ≠ [] && s.toList.all Char.isDigit && decide (s.toList.foldl (fun a c => a * 10 + (c.toNat - 48)) 0 < 2 ^ bits)
@@ -555,23 +532,17 @@ def reqNum (path : String) (n : TNode) (a : String) (bits : Nat) : PM Unit := do
   if isNum bits v then pure ()
   else throw (.diag (loc path ++ ": cannot convert `" ++ a ++ "` value (" ++ v ++ ") to its underlying numeric type"))
 
-/-- the unguarded access of `parse_type_encoding` -/
-def constCharTrig (n : TNode) : Bool :=
-  n.attr "presence" = some "constant" && n.attr "primitiveType" = some "char" && n.attr "length" = none && n.text = ""
-
-/-- `schema_parser::parse_type_encoding`, statement by statement as far as
-    diagnostics and unchecked accesses are concerned -/
 def checkPresence (path : String) (n : TNode) : PM Unit :=
   match n.attr "presence" with                      -- get_presence
   | none => pure ()
   | some p => if p = "required" ∨ p = "optional" ∨ p = "constant" then pure ()
               else throw (.diag (loc path ++ ": wrong presence token `" ++ p ++ "`"))
 
-def constCharAccess (n : TNode) : PM Unit :=
-  if constCharTrig n then throw (.crash .constCharNoValue) else pure ()
-
+/-- `schema_parser::parse_type_encoding`, statement by statement as far as
+    diagnostics are concerned.  The length deduction of a constant `char` type
+    (`t.constant_value->size()`) is now under `&& t.constant_value` and cannot
+    fail; it has no influence on the outcome and is left out. -/
 def parseType (path : String) (n : TNode) : PM Unit := do
-  findLoc n.offOk                                   -- t.location
   let _ ← requiredNonEmpty path n "name"
   checkPresence path n
   optNum path n "length" 64
@@ -579,18 +550,16 @@ def parseType (path : String) (n : TNode) : PM Unit := do
   let _ ← requiredNonEmpty path n "primitiveType"
   optNum path n "sinceVersion" 64
   optNum path n "deprecated" 64
-  constCharAccess n                                 -- t.length = t.constant_value->size()
 
-/-- one node of the traversal: recursion depth, location lookup, and for
-    `<type>` the attribute checks -/
 def checkDepth (env : Env) (n : TNode) : PM Unit :=
   if env.stackLimit < n.depth then throw (.crash .nestingTooDeep) else pure ()
 
+/-- one node of the traversal: recursion depth, and for `<type>` the attribute checks -/
 def checkNode (env : Env) (path : String) (n : TNode) : PM Unit := do
   checkDepth env n
   match n.kind with
   | .type => parseType path n
-  | _ => findLoc n.offOk
+  | _ => pure ()
 
 def checkNodes (env : Env) (path : String) : List TNode → PM Unit
   | [] => pure ()
@@ -612,61 +581,59 @@ def parseItemsWith (env : Env) (path : String) (incl : TNode → Parsed → PM P
   | .incl n :: r, acc => do
       let acc' ← incl n acc
       parseItemsWith env path incl r acc'
-  | .other n :: r, acc => do
-      findLoc n.offOk                               -- warning "unhandled XML node"
-      parseItemsWith env path incl r acc
-  | .schema n _ :: r, acc => do
-      findLoc n.offOk                               -- inside content: unhandled node
-      parseItemsWith env path incl r acc
+  | .other _ :: r, acc => parseItemsWith env path incl r acc     -- warning "unhandled XML node"
+  | .schema _ _ :: r, acc => parseItemsWith env path incl r acc  -- inside content: unhandled node
 
 /-- `fs_provider::read_file` + `parse_xml` -/
 def loadDoc (fs : FS) (path : String) : PM (List Item) :=
   match fs.get path with
   | .missing => throw (.diag ("can't open file: `" ++ path ++ "`"))
-  | .dir => throw (.crash .inputIsDirectory)
-  | .file (.malformed what ok) => do
-      findLoc ok
-      throw (.diag (loc path ++ ": XML parsing error: `" ++ what ++ "`"))
+  | .dir => throw (.diag ("can't read file: `" ++ path ++ "` is a directory"))
+  | .file (.malformed what) => throw (.diag (loc path ++ ": XML parsing error: `" ++ what ++ "`"))
   | .file (.doc top) => pure top
 
-/-- `parse_include`: a new `schema_parser` for `href`, whose whole top level is
-    content.  `fuel` bounds the nesting of parsers. -/
-def parseIncl (env : Env) (fs : FS) (path : String) : Nat → TNode → Parsed → PM Parsed
+/-- `parse_include`: the `href` must not be on the include stack (the files
+    whose parsing is in progress, outermost first); otherwise a new
+    `schema_parser` for `href`, whose whole top level is content, with the
+    stack extended by `href`.  `fuel` bounds the nesting of parsers. -/
+def parseIncl (env : Env) (fs : FS) (path : String) (stack : List String) : Nat → TNode → Parsed → PM Parsed
   | 0, n, _ => do
-      let _ ← requiredNonEmpty path n "href"
-      throw .fuel
+      let href ← requiredNonEmpty path n "href"
+      if href ∈ stack then throw (.diag (loc path ++ ": cyclic include of `" ++ href ++ "`"))
+      else throw .fuel
   | fuel + 1, n, acc => do
       let href ← requiredNonEmpty path n "href"
-      let top ← loadDoc fs href
-      parseItemsWith env href (parseIncl env fs href fuel) top acc
+      if href ∈ stack then throw (.diag (loc path ++ ": cyclic include of `" ++ href ++ "`"))
+      else do
+        let top ← loadDoc fs href
+        parseItemsWith env href (parseIncl env fs href (stack ++ [href]) fuel) top acc
 
 /-- `get_message_schema_node` -/
 def findSchema (path : String) : List Item → PM (TNode × List Item)
   | [] => throw (.diag (loc path ++ ": can't find `messageSchema` child"))
   | .schema n c :: _ => pure (n, c)
-  | .types n _ :: r => do findLoc n.offOk; findSchema path r
-  | .message n _ :: r => do findLoc n.offOk; findSchema path r
-  | .incl n :: r => do findLoc n.offOk; findSchema path r
-  | .other n :: r => do findLoc n.offOk; findSchema path r
+  | .types _ _ :: r => findSchema path r
+  | .message _ _ :: r => findSchema path r
+  | .incl _ :: r => findSchema path r
+  | .other _ :: r => findSchema path r
 
-/-- `parse_message_schema` -/
 def checkByteOrder (path : String) (n : TNode) : PM Unit :=
   match n.attr "byteOrder" with
   | none => pure ()
   | some v => if v = "littleEndian" ∨ v = "bigEndian" then pure ()
               else throw (.diag (loc path ++ ": unknown byteOrder value: `" ++ v ++ "`"))
 
+/-- `parse_message_schema` -/
 def parseSchemaAttrs (path : String) (n : TNode) : PM Unit := do
   reqNum path n "id" 32
   reqNum path n "version" 64
   checkByteOrder path n
-  findLoc n.offOk
 
 def parseMain (env : Env) (fs : FS) (fuel : Nat) (path : String) : PM Parsed := do
   let top ← loadDoc fs path
   let (n, content) ← findSchema path top
   parseSchemaAttrs path n
-  parseItemsWith env path (parseIncl env fs path fuel) content { schemaAttrs := n.attrs }
+  parseItemsWith env path (parseIncl env fs path [path] fuel) content { schemaAttrs := n.attrs }
 
 /-! ## after parsing -/
 
@@ -698,7 +665,8 @@ def front (env : Env) (fuel : Nat) (argv : List String) (fs : FS) : Except Stop 
           | none => .ok (some (cfg, parsed))
 
 /-- `fs_provider::write_file` per file: a failing open is a diagnostic, what was
-    written before stays -/
+    written before stays.  (Failing writes are the subject of C20; here the
+    operating system only refuses names.) -/
 def emitFiles (env : Env) : List String → List String → Option String × List String
   | [], acc => (none, acc)
   | f :: r, acc =>
@@ -721,14 +689,11 @@ def Outcome.isCrash : Outcome → Bool
   | .crash _ => true
   | _ => false
 
-/-- `catch(const sbe_error& e) { reporter.error(e.what()); return 1; }` -/
-def reportDiag (msg : String) : Outcome :=
-  if fmtSafe msg then .diag msg else .crash (siteOf .diagHasBrace)
-
+/-- `catch(const sbe_error& e) { reporter.error("{}", e.what()); return 1; }` -/
 def report : Stop → Outcome
-  | .p (.diag msg) => reportDiag msg
+  | .p (.diag msg) => .diag msg
   | .p (.crash t) => .crash (siteOf t)
-  | .p .fuel => .crash (siteOf .includeCycle)    -- the real recursion has no bound: stack exhaustion
+  | .p .fuel => .crash includeSite     -- a recursion without bound would exhaust the stack
   | .guarded s => .crash s
 
 structure Result where
@@ -743,7 +708,7 @@ def run (env : Env) (fuel : Nat) (argv : List String) (fs : FS) : Result :=
   | .ok (some (cfg, p)) =>
     match emit env cfg p with
     | (none, w) => ⟨.ok w, w⟩
-    | (some msg, w) => ⟨reportDiag msg, w⟩
+    | (some msg, w) => ⟨.diag msg, w⟩
 
 /-- the guard table's claim about the guarded sites: an access can only fail
     on a schema that an earlier stage rejects (`rule`); `static`, `local_` and
